@@ -309,7 +309,8 @@ class Tr:
     def call(self, n: ast.Call) -> tuple[list[str], str]:
         f = n.func
         if isinstance(f, ast.Name):
-            if f.id in self.t.ext_functions and isinstance(self.t.ext_functions[f.id][1], list):
+            if f.id in self.t.ext_functions and isinstance(self.t.ext_functions[f.id][1], list) \
+                    and self.t.ext_functions[f.id][1] != ["*all"]:
                 num, spec = self.t.ext_functions[f.id]
                 pres, es = self.args_of(n, spec)
                 return pres, f"(Expr.call {num} {self.lst(es)})"
@@ -372,6 +373,24 @@ class Tr:
                         raise Unrecognised("effectful argument")
                     es.append(e)
                 return pres, f"(Expr.call {self.t.callables[f.id]} {self.lst(es)})"
+            if f.id in self.t.ext_functions and self.t.ext_functions[f.id][1] == ["*all"]:
+                # every argument in order; `*name` / `**name` hand the local's tuple / dict on as ONE item each
+                num, es = self.t.ext_functions[f.id][0], []
+                for a in n.args:
+                    if isinstance(a, ast.Starred):
+                        if not (isinstance(a.value, ast.Name) and a.value.id in self.locals):
+                            raise Unrecognised("starred argument that is not a local")
+                        es.append(f"(Expr.loc {self.locals[a.value.id]})")
+                    else:
+                        pa, ea = self.expr(a)
+                        if pa:
+                            raise Unrecognised("effectful argument")
+                        es.append(ea)
+                for k in n.keywords:
+                    if not (k.arg is None and isinstance(k.value, ast.Name) and k.value.id in self.locals):
+                        raise Unrecognised("keyword argument in a pass-through call")
+                    es.append(f"(Expr.loc {self.locals[k.value.id]})")
+                return [], f"(Expr.call {num} {self.lst(es)})"
             if f.id in self.t.ext_functions and isinstance(self.t.ext_functions[f.id][1], list):
                 num, spec = self.t.ext_functions[f.id]
                 pres, es = self.args_of(n, spec)
